@@ -16,7 +16,7 @@ import (
 	"verif/scenarios/reg"
 )
 
-var faultKinds = []string{"none", "err", "eof", "data+eof", "garbage", "short", "peerclose", "localclose"}
+var faultKinds = []string{"none", "err", "eof", "data+eof", "garbage", "short", "peerclose", "localclose", "timeout"}
 
 // maxOps bounds the fault position; the fault-free run of every family must
 // stay below it (checked).
@@ -545,15 +545,15 @@ func init() {
 		Doc: "the peer stopped reading: with a finite send buffer the second of two calls is stuck in its write when the connection is closed locally or by the peer: both calls return errors, later calls fail, the callback fires once", MustFlag: []string{"write-stalled"}})
 	reg.Register(&reg.Scenario{Property: "C11", Name: "cancel-during-connection-loss", Body: cancelRace, Quick: 2, Thorough: 3,
 		Doc: "a subscription is cancelled (by a goroutine or from a disconnect callback) while the connection is lost (peer close / local Close / read error): its channel is closed, callbacks fire once"})
-	reg.Register(&reg.Scenario{Property: "C11", Name: "waiting-disconnect-callback", Body: body(2, true, false, true), Quick: 1, Thorough: 2,
+	reg.Register(&reg.Scenario{Property: "C11", Name: "waiting-disconnect-callback", Body: body(2, true, false, true), Quick: 1, Thorough: 2, MaxSteps: 30000, StepLimitFails: true,
 		Doc: "2 concurrent calls + subscription; the first OnDisconnect callback waits for the calls in flight to return; every fault kind at every I/O operation", MustFlag: []string{"fault-fired:eof"}})
-	reg.Register(&reg.Scenario{Property: "C11", Name: "one-call", Body: body(1, false, false, false), Quick: 2, Thorough: 4,
+	reg.Register(&reg.Scenario{Property: "C11", Name: "one-call", Body: body(1, false, false, false), Quick: 2, Thorough: 4, MaxSteps: 30000, StepLimitFails: true,
 		Doc:      "1 call; every fault kind at every I/O operation of the client stream",
-		MustFlag: []string{"all-calls-succeeded", "io:read-completed-while-own-write-in-progress", "fault-fired:err", "fault-fired:eof", "fault-fired:data+eof", "fault-fired:garbage", "fault-fired:short", "fault-fired:peerclose", "fault-fired:localclose"}})
-	reg.Register(&reg.Scenario{Property: "C11", Name: "two-calls", Body: body(2, false, false, false), Quick: 2, Thorough: 3,
+		MustFlag: []string{"all-calls-succeeded", "io:read-completed-while-own-write-in-progress", "fault-fired:err", "fault-fired:eof", "fault-fired:data+eof", "fault-fired:garbage", "fault-fired:short", "fault-fired:peerclose", "fault-fired:localclose", "fault-fired:timeout"}})
+	reg.Register(&reg.Scenario{Property: "C11", Name: "two-calls", Body: body(2, false, false, false), Quick: 2, Thorough: 3, MaxSteps: 30000, StepLimitFails: true,
 		Doc: "2 concurrent calls; every fault kind at every I/O operation", MustFlag: []string{"all-calls-succeeded", "fault-fired:err"}})
-	reg.Register(&reg.Scenario{Property: "C11", Name: "call-sub-disconnect", Body: body(1, true, false, false), Quick: 2, Thorough: 3,
+	reg.Register(&reg.Scenario{Property: "C11", Name: "call-sub-disconnect", Body: body(1, true, false, false), Quick: 2, Thorough: 3, MaxSteps: 30000, StepLimitFails: true,
 		Doc: "1 call + Subscribe + 2 OnDisconnect callbacks + 2 events; every fault kind at every I/O operation", MustFlag: []string{"all-calls-succeeded", "fault-fired:eof"}})
-	reg.Register(&reg.Scenario{Property: "C11", Name: "two-calls-local-close", Body: body(2, true, true, false), Quick: 1, Thorough: 3,
+	reg.Register(&reg.Scenario{Property: "C11", Name: "two-calls-local-close", Body: body(2, true, true, false), Quick: 1, Thorough: 3, MaxSteps: 30000, StepLimitFails: true,
 		Doc: "2 concurrent calls + subscription racing a local EndPoint.Close(); every fault kind at every I/O operation"})
 }
